@@ -5,6 +5,7 @@ history is replayed on a fresh Market, one more op is applied, the property moni
 transition, and the successor is hashed in canonical form (see DESIGN.md 2.1)."""
 import heapq
 import pickle
+import random
 import signal
 import time
 
@@ -16,6 +17,7 @@ from pams.logs.base import (CancelLog, ExecutionLog, ExpirationLog, Logger,  # n
                             OrderLog)
 from pams.market import Market  # noqa: E402
 from pams.order import LIMIT_ORDER, MARKET_ORDER, Cancel, Order  # noqa: E402
+from pams.simulator import Simulator  # noqa: E402
 
 
 def K(o):
@@ -83,6 +85,36 @@ class Entry:
         self.expired = False
 
 
+_SHARED = {}
+
+
+def _shared_sim():
+    if "sim" not in _SHARED:
+        _SHARED["sim"] = _SharedSim(prng=_SharedRandom(0))
+    return _SHARED["sim"]
+
+
+def _shared_rng():
+    if "rng" not in _SHARED:
+        _SHARED["rng"] = _SharedRandom(1)
+    return _SHARED["rng"]
+
+
+class _SharedRandom(random.Random):
+    """a real PRNG for the markets under test (they never draw from it); pickled as a reference to one per-process object"""
+
+    def __reduce__(self):
+        return (_shared_rng, ())
+
+
+class _SharedSim(Simulator):
+    """a REAL simulator object for the markets under test to point to (a market that looked at its simulator would find
+    one); it holds no markets, and worlds copied through pickle share one per process"""
+
+    def __reduce__(self):
+        return (_shared_sim, ())
+
+
 class World:
     TICK = 1.0
     P0 = 100.0
@@ -102,16 +134,20 @@ class World:
             import types
             from pams.index_market import IndexMarket
             for i, sh in ((1, 1), (2, 2)):
-                c = Market(i, None, None, "c%d" % (i - 1))
+                c = Market(i, _shared_rng(), None, "c%d" % (i - 1))
                 c.setup({"tickSize": tick, "marketPrice": self.P0, "outstandingShares": sh})
                 c._update_time(self.P0)
                 c._is_running = True
                 self.comps.append(c)
-            sim = types.SimpleNamespace(name2market={c.name: c for c in self.comps})
-            m = IndexMarket(0, None, sim, "m", logger=self.lg)
+            sim = Simulator(prng=random.Random(0))  # a real simulator of this world's own, holding the components and the index market
+            for c in self.comps:
+                c.simulator = sim
+                sim._add_market(c)
+            m = IndexMarket(0, _shared_rng(), sim, "m", logger=self.lg)
+            sim._add_market(m)
             m.setup({"tickSize": tick, "marketPrice": self.P0, "markets": [c.name for c in self.comps]})
         else:
-            m = Market(0, None, None, "m", logger=self.lg)
+            m = Market(0, _shared_rng(), _shared_sim(), "m", logger=self.lg)
             st = {"tickSize": tick, "marketPrice": self.P0}
             if shares is not None:
                 st["outstandingShares"] = shares  # only a weight in index markets: says nothing about what may trade
